@@ -35,8 +35,9 @@ def run(chk):
         try:
             if kind == "relaxation":
                 sd2 = copy.deepcopy(sd)
-                sd2["solver"]["relaxation"] = rng.choice([0.3, 0.5, 0.7, 0.85])
-                sd2["solver"]["max_iterations"] = 400
+                sd2["solver"]["relaxation"] = 0.05 if (it // 4) % 2 == 1 else rng.choice([0.3, 0.5, 0.7, 0.85])
+                # (with relaxation 0.05 the default cap of 100 iterations is not enough: the solve must raise, never return early)
+                sd2["solver"]["max_iterations"] = 400 if sd2["solver"]["relaxation"] > 0.1 else 100
                 other = api.solve(gen.build_scene(MX, sd2, acs))
                 what = "relaxation=%s" % sd2["solver"]["relaxation"]
             elif kind == "previous":
